@@ -92,6 +92,9 @@ void nni_stat_unregister(nni_stat_item *s) { (void) s; }
 /* ---- aio framework: init counted (real functions under contract in modules/aiocore) ---- */
 void nni_aio_init(nni_aio *aio, nni_cb cb, void *arg) { (void) aio; (void) cb; (void) arg; g_aioinit_calls++; }
 
+/* ---- the socket's message queues: only counted (real functions under contract in modules/msgqueue) ---- */
+void nni_msgq_fini(nni_msgq *mq) { (void) mq; g_mqfini_calls++; }
+
 /* ---- protocol context ops ---- */
 static void
 vp_ctx_init(void *data, void *sdata)
